@@ -7,3 +7,22 @@ package serviceprovider
 //@   inline
 //@   property C09
 //@   requires config != nil
+//@
+//@ ## C05: the two signature validators are contract boundaries; their ghost code records what each call was asked to verify
+//@ func (*serviceprovider.ServiceProvider).ValidateRedirectSignature
+//@   inline
+//@   property C05
+//@   enter vrCalls = vrCalls + 1
+//@   enter vrSP = sp
+//@   enter vrReq = request
+//@   enter vrRelay = relayState
+//@   enter vrAlg = sigAlg
+//@   enter vrSig = expectedSig
+//@   leave vrOK = (result == nil)
+//@ func (*serviceprovider.ServiceProvider).ValidatePostSignature
+//@   inline
+//@   property C05
+//@   enter vpCalls = vpCalls + 1
+//@   enter vpSP = sp
+//@   enter vpDoc = authRequest
+//@   leave vpOK = (result == nil)
